@@ -10,7 +10,7 @@ import traceback
 from . import factgen, mir
 
 VERIF = factgen.VERIF
-EVID = os.path.join(VERIF, 'evidence')
+EVID = os.environ.get('GV_EVIDENCE_DIR') or os.path.join(VERIF, 'evidence')
 KNOWN = os.path.join(VERIF, 'known_findings.json')
 
 
